@@ -14,7 +14,7 @@ CFG_COMMON = """
 CONSTANTS
   Keys = {{{keys}}}
   Attrs = {{{attrs}}}
-  Fams = {{"v4u", "v6u"}}
+  Fams = {{{fams}}}
   WdNames = {{"w"}}
 {variant}"""
 
@@ -35,10 +35,14 @@ def _set(xs) -> str:
     return ', '.join('"%s"' % x for x in xs)
 
 
+def _fams(keys) -> str:
+    return _set(['v4u', 'v4l'] if 'k7' in keys else ['v4u', 'v6u'])
+
+
 def mc_cfg(keys, attrs, level, variant=INTENDED) -> str:
     return (
         'SPECIFICATION Spec\n'
-        + CFG_COMMON.format(keys=_set(keys), attrs=_set(attrs), variant=_variant(variant))
+        + CFG_COMMON.format(keys=_set(keys), attrs=_set(attrs), fams=_fams(keys), variant=_variant(variant))
         + f"""  AttrIdx <- MCAttrIdx
   FamOf <- MCFamOf
   Grouped <- MCGrouped
@@ -61,7 +65,7 @@ CHECK_DEADLOCK FALSE
 def gen_cfg(keys, attrs, level, variant=INTENDED) -> str:
     return (
         'SPECIFICATION GSpec\n'
-        + CFG_COMMON.format(keys=_set(keys), attrs=_set(attrs), variant=_variant(variant))
+        + CFG_COMMON.format(keys=_set(keys), attrs=_set(attrs), fams=_fams(keys), variant=_variant(variant))
         + f"""  AttrIdx <- MCAttrIdx
   FamOf <- MCFamOf
   Grouped <- MCGrouped
@@ -76,7 +80,7 @@ CHECK_DEADLOCK FALSE
 def trace_cfg(keys, attrs, variant=ASIS) -> str:
     return (
         'SPECIFICATION TraceSpec\n'
-        + CFG_COMMON.format(keys=_set(keys), attrs=_set(attrs), variant=_variant(variant))
+        + CFG_COMMON.format(keys=_set(keys), attrs=_set(attrs), fams=_fams(keys), variant=_variant(variant))
         + """  AttrIdx <- TAttrIdx
   FamOf <- TFamOf
   Grouped <- TGrouped
@@ -146,7 +150,8 @@ def random_scripts(rnd: random.Random, keys, attrs, n, maxlen):
             elif n_ == 'Withdraw':
                 s.append({'name': n_, 'k': rnd.choice(keys)})
             elif n_ == 'Resend':
-                s.append({'name': n_, 'enhanced': rnd.random() < 0.5, 'fams': rnd.choice([['v4u'], ['v6u'], ['v4u', 'v6u']])})
+                other = 'v4l' if 'k7' in keys else 'v6u'
+                s.append({'name': n_, 'enhanced': rnd.random() < 0.5, 'fams': rnd.choice([['v4u'], [other], ['v4u', other]])})
             elif n_ == 'WatchdogAdd':
                 s.append({'name': n_, 'w': 'w', 'k': rnd.choice(keys), 'a': rnd.choice(attrs), 'withdrawn': rnd.random() < 0.5})
             elif n_ in ('WatchdogAnnounce', 'WatchdogWithdraw'):
@@ -277,9 +282,9 @@ def shrink(world, script, keys, rule):
 
 
 def run_rib(ck: Check, prop: str, keys, attrs, gen_level, n_random, rules, label, only_with=None):
-    from harness.ribdrv import RibWorld
+    from harness.ribdrv import CONF, CONF_LABELED, RibWorld
 
-    world = RibWorld()
+    world = RibWorld(CONF_LABELED if 'k7' in keys else CONF)
     scripts = gen_scripts(ck, keys, attrs, gen_level, label)
     ck.cov['exhaustive'] = True
     rnd = random.Random(seed())
